@@ -117,7 +117,12 @@ def run(ctx, res):
                 'asserted and non-asserted, quoted maps with several predicate-object maps / predicates / objects, NULLs inside the quoted triple, all three '
                 'partitioning modes; implementation against the Engine model and the Spec; distinct = distinct case; non-trivial = at least one RDF-star statement prescribed')
     cases = [c for c in (gen_star_case(ctx.rng) for _ in range(ctx.scale(160, 4000))) if expansion_size(c) <= 40]
-    family.run_family(ctx, res, cases, features)
+    # a third of the cases is written in the legacy RML vocabulary (its own quotedTriplesMap / NonAssertedTriplesMap / subjectMap terms)
+    def style_fn(c):
+        import hashlib, json as _j
+        h = int(hashlib.md5(_j.dumps(c['doc'], sort_keys=True).encode()).hexdigest(), 16)
+        return mapcase.Style(vocab='legacy') if h % 3 == 0 else None
+    family.run_family(ctx, res, cases, features, style_fn=style_fn)
 
 
 replay = family.replay_family
